@@ -219,6 +219,7 @@ class Program:
                 return ('model', ('trait', selfty.strip(), trname, method, targs, c))
             # `<impl ...>`-style path heads fall through
         name = strip_generics(c)
+        name = re.sub(r'::<impl (?!at )[^<>]*(?:<[^<>]*>[^<>]*)*>$', '', name)   # trailing `::<impl Trait>`: argument-position impl Trait
         f = self.by_name.get(c) or self.by_name.get(name)
         if f is not None: return ('mir', f)
         s = segs(name)
